@@ -1,4 +1,5 @@
 """Build the real device_kit objects from a description (see gen.py)."""
+import os
 from fractions import Fraction
 from .common import repo, pf, F
 
@@ -9,11 +10,13 @@ def _np():
 
 
 def fv(v):
-  """scalar-or-vector protocol value -> float / np.array."""
+  """scalar-or-vector protocol value -> float / np.array (integer-typed for about a third of the integer-valued ones)."""
   np = _np()
   if isinstance(v, list):
-    return np.array([pf(x) for x in v])
-  return pf(v)
+    f = [pf(x) for x in v]
+    return np.array(f, dtype=int) if _intlike(f) else np.array(f)
+  x = pf(v)
+  return int(x) if _intlike([x]) else x
 
 
 def build_fn(f):
@@ -139,9 +142,27 @@ def build_leaf(d, id=None):
   raise ValueError('unknown class ' + cls)
 
 
+def _intlike(vals):
+  """deterministic pseudo-random choice (no rng: the same description always builds the same objects):
+  about one third of all-integer-valued inputs are handed to the library as INTEGER-typed data
+  (numpy int arrays / Python ints), as callers do all the time (`bounds=(0, 2)`, `np.arange(n)`)."""
+  import zlib
+  if os.environ.get('VERIF_NO_INT_INPUTS'):
+    return False
+  flat = []
+  def walk(u):
+    if isinstance(u, list):
+      for w in u: walk(w)
+    else:
+      flat.append(u)
+  walk(vals)
+  return bool(flat) and all(float(x).is_integer() for x in flat) and zlib.crc32(repr(flat).encode()) % 3 == 0
+
+
 def arr(v, shape=None):
   np = _np()
-  a = np.array(jf(v), dtype=float)
+  f = jf(v)
+  a = np.array(f, dtype=int) if _intlike(f) else np.array(f, dtype=float)
   return a.reshape(shape) if shape is not None else a
 
 
@@ -152,9 +173,13 @@ def jf(v):
 
 
 def price(p):
-  """protocol price -> float / array."""
+  """protocol price -> float / array (integer-typed for about a third of the integer-valued prices)."""
   np = _np()
-  return np.array(jf(p), dtype=float) if isinstance(p, list) else pf(p)
+  if isinstance(p, list):
+    f = jf(p)
+    return np.array(f, dtype=int) if _intlike(f) else np.array(f, dtype=float)
+  x = pf(p)
+  return int(x) if _intlike([x]) else x
 
 
 def build_ucons(ucons):
